@@ -88,6 +88,22 @@ def replay_config(model, path):
                 return dict(confirmed=True, input=dict(enable_access_control=enabled, allow_list=al, deny_list=dl, default_allow=default, peer=addr),
                             observed=dict(config_object=repr(got_cfg), admitted=got, written_policy_admits=want),
                             clause="the policy written in the configuration is the policy enforced")
+    # entries that cannot be interpreted, written in the SERVER configuration, must prevent start-up (whatever else is in the list)
+    for bad in ([""], [" "], ["\t"], ["198.51.100.0/24", " "], ["", "10.0.0.0/8"], [" 10.0.0.1"], ["10.0.0.1 "], ["nonsense"], ["10.0.0.1/8"]):
+        for kw in ("access_control_allow_list", "access_control_deny_list"):
+            for default in (True, False):
+                try:
+                    sc = ServerConfig(document_root=tmp, enable_access_control=True, access_control_default_allow=default, **{kw: bad})
+                    cfg = sc.get_access_control_config()
+                    started = True
+                    if cfg is not None:
+                        mw.AccessControl(cfg)
+                except ValueError:
+                    started = False
+                if started:
+                    return dict(confirmed=True, input={"enable_access_control": True, kw: bad, "default_allow": default},
+                                observed=dict(config_object=repr(cfg), started=True, admits_203_0_113_7=chain_decision(cfg, "203.0.113.7")),
+                                clause="a list entry that cannot be interpreted prevents start-up instead of being skipped")
     return dict(confirmed=False, reason="no configuration in the bank deviates", tried=len(combos) * len(ADDRS))
 
 
